@@ -1,0 +1,129 @@
+//go:build verif
+
+package sequtil
+
+// Machine-checked contracts for /verif/govc (contract-based deductive
+// verification). Comments only; this file compiles to nothing and is only
+// read with the build tag "verif".
+
+//@ global ntoi
+//@   props C13
+//@   invariant len(ntoi) == 256
+//@   invariant forall b int :: 0 <= b && b < 256 ==> ntoi[b] == code(b)
+//@   established-by init#1
+
+//@ global complementBytes
+//@   props C12
+//@   invariant len(complementBytes) == 256
+//@   invariant forall b int :: 0 <= b && b < 256 ==> complementBytes[b] == comp(b)
+//@   established-by init#1
+
+//@ func init#1
+//@   props C12 C13
+//@   loop 1
+//@     invariant len(ntoi) == 256
+//@     invariant forall b int :: 0 <= b && b < i ==> ntoi[b] == 0-1
+
+//@ func Ntoi
+//@   props C13
+//@   ensures result == code(nuc)
+
+//@ func Iton
+//@   props C13
+//@   ensures result == base(num)
+
+//@ func complementByte
+//@   props C12
+//@   panics !isBase10(b)
+//@   ensures result == comp(b)
+
+//@ func ReverseComplement
+//@   props C12
+//@   panics exists j int :: 0 <= j && j < len(src) && !isBase10(src[j])
+//@   ensures len(result) == len(dst) + len(src)
+//@   ensures forall j int :: 0 <= j && j < len(dst) ==> result[j] == dst[j]
+//@   ensures forall j int :: 0 <= j && j < len(src) ==> result[len(dst)+j] == comp(src[len(src)-1-j])
+//@   loop 1
+//@     invariant 0-1 <= i && i < len(src)
+//@     invariant len(dst) == len(old(dst)) + len(src)-1-i
+//@     invariant forall j int :: 0 <= j && j < len(old(dst)) ==> dst[j] == old(dst)[j]
+//@     invariant forall j int :: 0 <= j && j < len(src)-1-i ==> dst[len(old(dst))+j] == comp(src[len(src)-1-j])
+//@     invariant forall j int :: i < j && j < len(src) ==> isBase10(src[j])
+//@     decreases i + 1
+
+//@ func ReverseComplementString
+//@   props C12
+//@   panics exists j int :: 0 <= j && j < len(s) && !isBase10(s[j])
+//@   ensures len(result) == len(s)
+//@   ensures forall j int :: 0 <= j && j < len(s) ==> result[j] == comp(s[len(s)-1-j])
+//@   loop 1
+//@     invariant 0-1 <= i && i < len(s)
+//@     invariant len(builder.out) == len(s)-1-i
+//@     invariant forall j int :: 0 <= j && j < len(s)-1-i ==> builder.out[j] == comp(s[len(s)-1-j])
+//@     invariant forall j int :: i < j && j < len(s) ==> isBase10(s[j])
+//@     decreases i + 1
+
+//@ func CanonicalSubsequences
+//@   props C12 C18
+//@   yields Y
+//@   witness rc
+//@   requires k >= 1
+//@   panics exists j int :: 0 <= j && j < len(seq) && !isBase10(seq[j])
+//@   ensures len(rc) == len(seq)
+//@   ensures forall j int :: 0 <= j && j < len(seq) ==> rc[j] == comp(seq[len(seq)-1-j])
+//@   ensures !stopped ==> len(Y) == max(0, len(seq)-k+1)
+//@   ensures len(Y) <= max(0, len(seq)-k+1)
+//@   ensures forall t int :: 0 <= t && t < len(Y) ==> len(Y[t]) == k
+//@   ensures forall t int, m int :: 0 <= t && t < len(Y) && 0 <= m && m < k ==>
+//@             Y[t][m] == (lexcmp(seq, t, k, rc, len(seq)-t-k, k) == 1 ? rc[len(seq)-t-k+m] : seq[t+m])
+//@   loop 1
+//@     invariant len(rc) == len(seq) && nk == len(seq)-k+1
+//@     invariant forall j int :: 0 <= j && j < len(seq) ==> rc[j] == comp(seq[len(seq)-1-j])
+//@     invariant len(Y) == i
+//@     invariant forall t int :: 0 <= t && t < len(Y) ==> len(Y[t]) == k
+//@     invariant forall t int, m int :: 0 <= t && t < len(Y) && 0 <= m && m < k ==>
+//@                 Y[t][m] == (lexcmp(seq, t, k, rc, len(seq)-t-k, k) == 1 ? rc[len(seq)-t-k+m] : seq[t+m])
+
+//@ func DNATo2Bit
+//@   props C13
+//@   panics exists j int :: 0 <= j && j < len(src) && !isACGT(src[j])
+//@   ensures len(result) == len(dst) + (len(src)+3)/4
+//@   ensures forall j int :: 0 <= j && j < len(dst) ==> result[j] == dst[j]
+//@   ensures forall q int :: 0 <= q && q < (len(src)+3)/4 ==> result[len(dst)+q] == pk(src, q, len(src))
+//@   loop 1
+//@     invariant dn == len(old(dst))
+//@     invariant len(dst) == dn + (i+3)/4
+//@     invariant forall j int :: 0 <= j && j < dn ==> dst[j] == old(dst)[j]
+//@     invariant forall q int :: 0 <= q && q < (i+3)/4 ==> dst[dn+q] == pk(src, q, i)
+//@     invariant forall j int :: 0 <= j && j < i ==> isACGT(src[j])
+//@     split i % 4 == 0
+//@     split i % 4 == 1
+//@     split i % 4 == 2
+
+//@ global dnaFrom2bit
+//@   props C13
+//@   invariant len(dnaFrom2bit) == 256
+//@   invariant forall v int, r int :: 0 <= v && v < 256 && 0 <= r && r < 4 ==> dnaFrom2bit[v][r] == base(digit4(v, r))
+//@   established-by init#2
+
+//@ func init#2
+//@   props C13
+//@   loop 1
+//@     invariant len(dnaFrom2bit) == 256 && len(val) == 4 && 0 <= i && i <= 256
+//@     invariant forall v int, r int :: 0 <= v && v < i && 0 <= r && r < 4 ==> dnaFrom2bit[v][r] == base(digit4(v, r))
+//@   loop 2
+//@     invariant len(val) == 4 && 0 <= j && j <= 4
+//@     invariant forall r int :: 3-j < r && r <= 3 ==> val[r] == base(digit4(i, r))
+
+//@ func DNAFrom2Bit
+//@   props C13
+//@   ensures len(result) == len(dst) + 4*len(src)
+//@   ensures forall j int :: 0 <= j && j < len(dst) ==> result[j] == dst[j]
+//@   ensures forall q int, r int :: 0 <= q && q < len(src) && 0 <= r && r < 4 ==>
+//@             result[len(dst)+4*q+r] == base(digit4(src[q], r))
+//@   loop 1
+//@     invariant 0 <= i && i <= len(src)
+//@     invariant len(dst) == len(old(dst)) + 4*i
+//@     invariant forall j int :: 0 <= j && j < len(old(dst)) ==> dst[j] == old(dst)[j]
+//@     invariant forall q int, r int :: 0 <= q && q < i && 0 <= r && r < 4 ==>
+//@                 dst[len(old(dst))+4*q+r] == base(digit4(src[q], r))
